@@ -278,6 +278,26 @@ def fixed_programs():
             if a != b:
                 p.append(["Eq", ["d", str(a)], ["d", str(b)]])
     out.append(p)
+    # several element records of one kind under one identifier (identifiers are not unique): equal up to the order of
+    # the records, different when an earlier one differs — at document level and inside a bundle
+    def same_id_doc(i, ks, in_bundle):
+        ops = [["NewDoc"], ["AddNs", ["d", str(i)], "ex", EXU]]
+        c = ["d", str(i)]
+        if in_bundle:
+            ops.append(["NewBundle", str(i), ["S", "ex:b"]])
+            c = ["b", str(i), "0"]
+        for k in ks:
+            ops.append(["NewRecord", c, "Entity", ["S", "ex:e"], [[["S", "ex:k"], ["int", str(k)]]]])
+        ops.append(["NewRecord", c, "Agent", ["S", "ex:e2"], []])
+        return ops
+    for in_bundle in (False, True):
+        p = same_id_doc(0, [1, 2, 3], in_bundle) + same_id_doc(1, [3, 1, 2], in_bundle) + same_id_doc(2, [9, 2, 3], in_bundle) + \
+            same_id_doc(3, [1, 9, 3], in_bundle) + same_id_doc(4, [1, 2], in_bundle) + same_id_doc(5, [1, 2, 2], in_bundle)
+        for a in range(6):
+            for b in range(6):
+                if a != b:
+                    p.append(["Eq", ["d", str(a)], ["d", str(b)]])
+        out.append(p)
     return out
 
 
